@@ -181,6 +181,15 @@ pub fn exercise_loaded(rec: &mut Rec, mbi: &BootInformation, opts: &MbiOpts) {
             it.count()
         });
         rec.t.push("w.count_after1", v.map_or(Val::Panic, |c| Val::U(c as u64)));
+        let v = catch(|| {
+            let mut it = mbi.tags();
+            it.next();
+            let mut c = it.clone();
+            c.next().map(|t| rec.ext(t))
+        });
+        rec.t.push("w.clone_after1", match v { None => Val::Panic, Some(None) => Val::None, Some(Some(v)) => v });
+        let v = catch(|| mbi.tags().last().map(|t| rec.ext(t)));
+        rec.t.push("w.last", match v { None => Val::Panic, Some(None) => Val::None, Some(Some(v)) => v });
     }
 
     // --- every item through the type its type word names ------------------
